@@ -102,6 +102,13 @@ class AppCase:
         if 'MaxDepth' in e:
             lines.append('[Resolver]')
             lines.append('MaxDepth=%d' % e['MaxDepth'])
+        pad = self.cfg.get('pad')
+        if pad:
+            # a long comment header: the settings come after the first kilobytes of the file
+            head = []
+            while sum(len(x) + 1 for x in head) < pad:
+                head.append('; %s %d' % ('configuration of the diet tracker, kept under version control', len(head)))
+            lines = head + [''] + lines
         return ('\n'.join(lines) + '\n').encode()
 
     def go(self):
